@@ -297,3 +297,5 @@ class C14(Check):
 
 
 CHECK = C14()
+# scope added in later rounds, kept in the evidence text
+CHECK.rule += ' Histories on one object: reverse, append_scaffold (with / without gap) or add a row, reverse again.'
